@@ -8,10 +8,10 @@ FAM = {'C04'}
 EXCS = ['ValueError', 'KeyError', 'TypeError', 'RuntimeError', 'OSError',
         'ZeroDivisionError', 'WorldError', 'OddError', 'AttributeError',
         'StopIteration', 'Exception', 'AssertionError', 'UnicodeError',
-        'NotImplementedError', 'SystemExit']
+        'NotImplementedError', 'SystemExit', 'UnhashableError']
 
 
-CHAINS = ['cause', 'context', 'cause_group']
+CHAINS = ['cause', 'context', 'cause_group', 'cause_self', 'cause_cycle']
 
 
 def vary_exceptions(rng, world):
